@@ -241,7 +241,12 @@ func runNative(verif, repo, prop string) (passed, failed []string) {
 		return nil, nil
 	}
 	pat := fmt.Sprintf("^Test(Finding|Known|Replay)_%s_", prop)
-	cmd := exec.Command("go", "test", "-count=1", "-json", "-run", pat, ".")
+	args := []string{"test", "-count=1", "-json", "-run", pat}
+	if prop == "C11" {
+		// the demonstrations of repaired data races are only meaningful (and only compiled) under the race detector
+		args = append(args, "-race")
+	}
+	cmd := exec.Command("go", append(args, ".")...)
 	cmd.Dir = dir
 	cmd.Env = append(os.Environ(), "GOFLAGS=-mod=mod", "GOPROXY=off", "GOSUMDB=off", "GOTOOLCHAIN=local")
 	if repo != "/repo" {
